@@ -46,6 +46,7 @@ type Case struct {
 	Raw     string `json:"raw,omitempty"`  // hex, used when Base == ""
 	Ops     []Op   `json:"ops,omitempty"`
 	Content string `json:"content,omitempty"` // detached-signature content file
+	Query   string `json:"query,omitempty"`   // extra query parameters (server entry points), k=v&k=v
 	Family  string `json:"family"`            // format family of the generator
 	Mut     string `json:"mut"`               // human-readable description of the corruption
 	Valid   bool   `json:"valid,omitempty"`   // unmodified fixture / signed fixture: must be ok or error, calibrates the memory bound
@@ -281,13 +282,17 @@ type Runner struct {
 	mu      sync.Mutex
 }
 
-func (r *Runner) exec1(ctx context.Context, dir, path string, c *Case, asLimit uint64) (stdout, stderr string, exit int, timedOut bool, dt time.Duration) {
+func (r *Runner) exec1(ctx context.Context, dir, path string, c *Case, asLimit uint64, env ...string) (stdout, stderr string, exit int, timedOut bool, dt time.Duration) {
 	args := []string{"-scratch", dir, "c11one", c.Entry, c.SigType, path, c.Name}
 	if c.Content != "" {
 		args = append(args, "--content", c.Content)
 	}
+	if c.Query != "" {
+		args = append(args, "--query", c.Query)
+	}
 	cmd := exec.Command(r.Exe, args...)
 	cmd.Env = append(os.Environ(), "GOMAXPROCS=2", "GOTRACEBACK=all", fmt.Sprintf("C11_AS=%d", asLimit))
+	cmd.Env = append(cmd.Env, env...)
 	var so, se bytes.Buffer
 	cmd.Stdout, cmd.Stderr = &so, &se
 	cmd.SysProcAttr = &syscall.SysProcAttr{Setpgid: true}
@@ -375,14 +380,27 @@ func (r *Runner) RunCase(idx int, c Case) Result {
 			// finished, but obtained far more memory than the input justifies. Re-run with a tight address-space
 			// limit so that the offending allocation fails and names itself.
 			res.Class = "alloc"
-			lim := memBound(len(data)) + (700 << 20)
-			_, se2, ex2, to2, _ := r.exec1(context.Background(), dir, path, &c, lim)
-			msg, top, relic := "", "", ""
-			if ex2 != 0 && !to2 {
-				msg, top, relic = analyseTrace(se2, false)
-				res.Trace = tail(se2)
+			so2, _, _, _, _ := r.exec1(context.Background(), dir, path, &c, 2<<30, "C11_MEMPROF=1")
+			var o2 oneOut
+			for _, l := range strings.Split(so2, "\n") {
+				if strings.HasPrefix(l, "{") {
+					json.Unmarshal([]byte(l), &o2)
+				}
 			}
-			setKey("alloc", fmt.Sprintf("runtime obtained %d bytes from the OS for a %d-byte input (bound %d) %s", o.Sys, len(data), memBound(len(data)), msg), top, relic)
+			top, relic := "", ""
+			for _, f := range o2.AllocSite {
+				if strings.HasPrefix(f, "runtime.") || strings.Contains(f, "verifharness/") {
+					continue
+				}
+				if top == "" {
+					top = f
+				}
+				if relic == "" && strings.HasPrefix(f, relicMod) && !strings.Contains(f, "internal/zhttp") {
+					relic = f
+				}
+			}
+			res.Trace = strings.Join(o2.AllocSite, "\n")
+			setKey("alloc", fmt.Sprintf("runtime obtained %d bytes from the OS for a %d-byte input (bound %d); largest allocation site %d bytes", o.Sys, len(data), memBound(len(data)), o2.AllocBytes), top, relic)
 		}
 	default:
 		msg, top, relic := analyseTrace(stderr, false)
